@@ -330,6 +330,34 @@ func (g *Gen) path(names []int, allowU bool) string {
 
 // orderForTyped tries to reorder names into an instantiated tuple; returns names unchanged
 // if none is found.
+// windowOf: k components of `pool` with consecutive static numbers (mod 12), in that order — the
+// shape of the instantiated tuples of the generated-arity API
+func (g *Gen) windowOf(pool []int, k int) []int {
+	in := map[int]bool{}
+	for _, n := range pool {
+		in[n] = true
+	}
+	var starts []int
+	for s := 0; s < 12; s++ {
+		ok := true
+		for i := 0; i < k; i++ {
+			ok = ok && in[(s+i)%12]
+		}
+		if ok {
+			starts = append(starts, s)
+		}
+	}
+	if len(starts) == 0 {
+		return nil
+	}
+	s0 := starts[g.pick(len(starts))]
+	out := make([]int, k)
+	for i := range out {
+		out[i] = (s0 + i) % 12
+	}
+	return out
+}
+
 func (g *Gen) tupleOrder(names []int) []int {
 	if len(names) <= 1 {
 		return names
@@ -518,7 +546,18 @@ func (g *Gen) newObserver() {
 		pool = names
 	}
 	if fs := g.subset(pool, 0, 2); len(fs) > 0 && g.chance(0.7) {
+		// the typed observers Observe1-4: the observed components in an order that has an instantiation
+		// (sometimes three or four of them)
+		if g.chance(0.3) {
+			if w := g.windowOf(pool, 2+g.pick(3)); len(w) > 0 {
+				fs = w
+			}
+		}
+		fs = g.tupleOrder(fs)
 		line += " for=" + joinComps(fs)
+		if g.chance(0.6) {
+			line += " typed"
+		}
 	}
 	if ws := g.subset(names, 1, 2); g.chance(0.35) {
 		line += " with=" + joinComps(ws)
@@ -1669,6 +1708,9 @@ func (g *Gen) opObsChurn() bool {
 		if !g.chance(0.35) { // otherwise a wildcard observer
 			if g.chance(0.7) {
 				line += " for=" + joinComps(g.subset(names, 1, 1))
+				if g.chance(0.5) {
+					line += " typed"
+				}
 			}
 			if g.chance(0.4) {
 				line += " with=" + joinComps(g.subset(names, 1, 1))
